@@ -8,8 +8,8 @@
 // fold it; built at -O0 and -O2 and with clang).  A case line is `<op> <table indices> <values>`;
 // the values are cross-checked against the table (`table-mismatch` if the generator and the
 // checked-in header disagree).
-#include "common.hpp"
-
+// etl first: once libstdc++ has declared its own `struct __is_scalar`, clang stops treating
+// __is_scalar (used by etl::is_scalar) as a builtin
 #include <etl/algorithm.hpp>
 #include <etl/bit.hpp>
 #include <etl/charconv.hpp>
@@ -19,7 +19,10 @@
 #include <etl/numeric.hpp>
 #include <etl/string.hpp>
 #include <etl/string_view.hpp>
+#include <etl/type_traits.hpp>
 #include <etl/vector.hpp>
+
+#include "common.hpp"
 
 #include <cmath>
 #include <cstdint>
